@@ -37,12 +37,15 @@ type vCM struct {
 	v2    []types.V2Transaction
 	wmu   *SingleAddressWallet // to check the wallet's lock is held during calls
 	calls int
+	net   *consensus.Network
+	added []types.V2Transaction
 }
 
 func (c *vCM) AddV2PoolTransactions(basis types.ChainIndex, txns []types.V2Transaction) (bool, error) {
+	c.added = append(c.added, txns...)
 	return false, nil
 }
-func (c *vCM) TipState() consensus.State                        { return consensus.State{Index: c.tip} }
+func (c *vCM) TipState() consensus.State                        { return consensus.State{Index: c.tip, Network: c.net} }
 func (c *vCM) BestIndex(height uint64) (types.ChainIndex, bool) { return c.tip, true }
 func (c *vCM) PoolTransactions() []types.Transaction            { c.calls++; return c.v1 }
 func (c *vCM) RecommendedFee() types.Currency                   { return types.NewCurrency64(1) }
@@ -88,6 +91,10 @@ func utxoID(k int) (id types.SiacoinOutputID) {
 	return
 }
 
+// wwOneUnconfValue restricts the unconfirmed output to one value (harnesses
+// whose subject does not depend on it).
+var wwOneUnconfValue bool
+
 // newWalletWorld: a wallet holding n outputs of symbolic value, each mature or
 // not, reserved or not, spent by a pooled v1/v2 transaction or not; options symbolic.
 func newWalletWorld(n int) *walletWorld {
@@ -119,7 +126,10 @@ func newWalletWorld(n int) *walletWorld {
 		ww.immature = append(ww.immature, imm)
 		lk := false
 		p1, p2 := false, false
-		switch vapi.Int("state", 0, 3) {
+		switch vapi.Int("state", 0, 4) {
+		case 4:
+			// a reservation whose period is over: the output is free again
+			w.locked[sce.ID] = time.Now().Add(-time.Minute)
 		case 1:
 			lk = true
 			w.locked[sce.ID] = time.Now().Add(time.Hour)
@@ -138,11 +148,16 @@ func newWalletWorld(n int) *walletWorld {
 		ww.hasUnconf = true
 		// a few concrete values: the creating transaction's id (a hash of its
 		// outputs) must stay concrete
-		ww.unconfValue = []uint64{1, 77, 1 << 31}[vapi.Int("unconfirmed-value", 0, 2)]
+		ww.unconfValue = 1 << 31
+		if !wwOneUnconfValue {
+			ww.unconfValue = []uint64{1, 77, 1 << 31}[vapi.Int("unconfirmed-value", 0, 2)]
+		}
 		creator := types.V2Transaction{ArbitraryData: []byte{0x42}, SiacoinOutputs: []types.SiacoinOutput{{Value: types.NewCurrency64(ww.unconfValue), Address: addr}}}
 		ww.cm.v2 = append(ww.cm.v2, creator)
 		ww.unconfID = creator.EphemeralSiacoinOutput(0).ID
-		switch vapi.Int("unconfirmed-state", 0, 2) {
+		switch vapi.Int("unconfirmed-state", 0, 3) {
+		case 3:
+			w.locked[ww.unconfID] = time.Now().Add(-time.Minute)
 		case 1:
 			ww.unconfLocked = true
 			w.locked[ww.unconfID] = time.Now().Add(time.Hour)
@@ -154,6 +169,18 @@ func newWalletWorld(n int) *walletWorld {
 		}
 	}
 	return ww
+}
+
+// activeReservations counts the reservations whose period is not over
+// (expired entries may or may not have been purged from the map yet).
+func activeReservations(w *SingleAddressWallet) (c int) {
+	now := time.Now()
+	for _, until := range w.locked {
+		if now.Before(until) {
+			c++
+		}
+	}
+	return
 }
 
 func (ww *walletWorld) spendable(k int) bool {
@@ -193,7 +220,7 @@ func verifFundWallet(maxUtxos int) {
 	if useUnconfirmed && ww.hasUnconf && !ww.unconfLocked && !ww.unconfSpent {
 		total += ww.unconfValue
 	}
-	lockedBefore := len(w.locked)
+	lockedBefore := activeReservations(w)
 	v2 := vapi.Bool("v2")
 	pre := vapi.Int("existing-inputs", 0, 1)
 	var ids []types.SiacoinOutputID
@@ -238,7 +265,7 @@ func verifFundWallet(maxUtxos int) {
 	if err != nil {
 		vapi.Reach("refused")
 		vapi.Assert("complete.refuses-only-when-short", amount > total)
-		vapi.Assert("fail-clean.no-reservation", len(w.locked) == lockedBefore)
+		vapi.Assert("fail-clean.no-reservation", activeReservations(w) == lockedBefore)
 		return
 	}
 	if amount == 0 {
@@ -278,7 +305,7 @@ func verifFundWallet(maxUtxos int) {
 		_, isLocked := w.locked[id]
 		vapi.Assert("reserve.selected-are-locked", isLocked)
 	}
-	vapi.Assert("reserve.exactly-selected", len(w.locked) == lockedBefore+len(ids))
+	vapi.Assert("reserve.exactly-selected", activeReservations(w) == lockedBefore+len(ids))
 	// conservation: inputs = amount + change, change paid to the wallet
 	vapi.Assert("conserve.enough", sum >= amount)
 	if sum > amount {
@@ -487,6 +514,76 @@ func VerifH_C07_reload() {
 		}
 	}
 	vapi.Reach("reloaded")
+}
+
+// VerifH_C07_split: one SplitUTXO call from an arbitrary wallet state: the
+// split spends one spendable output of the wallet, its parts plus the fee are
+// exactly that output's value, every part is at least the minimum, the input
+// is reserved and exactly this transaction is submitted; a refusal or a
+// "nothing to do" reserves and submits nothing.
+//
+//verif:harness prop=C07 tier=quick replay=native require=split,refused,nothing bounds="wallet of 2 outputs as in VerifH_C07_fund (incl. expired reservations and an unconfirmed output of 2^31); 2..3 requested parts; symbolic 16-bit minimum; fee 2000"
+func VerifH_C07_split() { verifSplit(false) }
+
+//verif:harness prop=C07 tier=thorough replay=native require=split,refused,nothing bounds="as VerifH_C07_split with wallets of 1..2 outputs, an unconfirmed output of 1, 77 or 2^31, and 2..4 requested parts"
+func VerifH_C07_split4() { verifSplit(true) }
+
+func verifSplit(deep bool) {
+	wwOneUnconfValue = !deep
+	nu, maxParts := 2, 3
+	if deep {
+		nu, maxParts = vapi.Int("utxos", 1, 2), 4
+	}
+	ww := newWalletWorld(nu)
+	ww.cm.net = &consensus.Network{}
+	w := ww.w
+	w.syncer = nopSyncer{}
+	n := vapi.Int("parts", 2, maxParts)
+	min := vapi.UBits("min", 16)
+	reservedBefore := activeReservations(w)
+	reserved := func() int { return activeReservations(w) }
+	txn, err := w.SplitUTXO(n, types.NewCurrency64(min))
+	if err != nil {
+		vapi.Reach("refused")
+		vapi.Assert("split.refused-reserves-nothing", reserved() == reservedBefore)
+		vapi.Assert("split.refused-submits-nothing", len(ww.cm.added) == 0)
+		return
+	}
+	above := 0
+	for k := range ww.value {
+		if ww.spendable(k) && ww.value[k] >= min {
+			above++
+		}
+	}
+	if ww.hasUnconf && !ww.unconfLocked && !ww.unconfSpent && ww.unconfValue >= min {
+		above++
+	}
+	if len(txn.SiacoinInputs) == 0 {
+		vapi.Reach("nothing")
+		vapi.Assert("split.nothing-only-if-enough", above >= n)
+		vapi.Assert("split.nothing-reserves-nothing", reserved() == reservedBefore)
+		vapi.Assert("split.nothing-submits-nothing", len(ww.cm.added) == 0)
+		return
+	}
+	vapi.Reach("split")
+	vapi.Assert("split.one-input", len(txn.SiacoinInputs) == 1)
+	in := txn.SiacoinInputs[0].Parent
+	if k := ww.indexOf(in.ID); k >= 0 {
+		vapi.Assert("split.input-spendable", ww.spendable(k))
+		vapi.Assert("split.input-value", in.SiacoinOutput.Value == types.NewCurrency64(ww.value[k]))
+	} else {
+		vapi.Assert("split.input-owned", ww.hasUnconf && in.ID == ww.unconfID && !ww.unconfLocked && !ww.unconfSpent)
+	}
+	sum := txn.MinerFee
+	for _, sco := range txn.SiacoinOutputs {
+		sum = sum.Add(sco.Value)
+		vapi.Assert("split.part-at-least-minimum", sco.Value.Cmp(types.NewCurrency64(min)) >= 0)
+		vapi.Assert("split.part-paid-to-wallet", sco.Address == w.addr)
+	}
+	vapi.Assert("split.conserves-value", sum == in.SiacoinOutput.Value)
+	vapi.Assert("split.part-count", len(txn.SiacoinOutputs) == n-above+1)
+	vapi.Assert("split.input-reserved", time.Now().Before(w.locked[in.ID]) && reserved() == reservedBefore+1)
+	vapi.Assert("split.submitted", len(ww.cm.added) == 1 && ww.cm.added[0].ID() == txn.ID())
 }
 
 type splitCM struct {
